@@ -69,6 +69,14 @@ func (unpacker *RtpUnpackerAac) TryUnpackOne(list *RtpPacketList) (unpackedFlag 
 
 	aus := parseAu(b)
 
+	// 无效包，丢弃
+	if len(aus) == 0 {
+		Log.Errorf("invalid aac rtp packet, drop. header=%+v, len=%d", p.Packet.Header, len(b))
+		list.Head.Next = p.Next
+		list.Size--
+		return true, p.Packet.Header.Seq
+	}
+
 	// 只有一个描述
 	if len(aus) == 1 {
 
@@ -178,10 +186,19 @@ type au struct {
 func parseAu(b []byte) (ret []au) {
 	// TODO(chef): [fix] 解析b时，没有判断长度有效性 202207
 
+	if len(b) < 2 {
+		return nil
+	}
+
 	// AU Header Section
 	var auHeadersLength uint32
 	auHeadersLength = uint32(b[0])<<8 + uint32(b[1])
 	auHeadersLength = (auHeadersLength + 7) / 8
+
+	// AU Header Section不能超出包的长度
+	if 2+auHeadersLength > uint32(len(b)) {
+		return nil
+	}
 
 	// TODO chef: 这里的2是写死的，正常是外部传入auSize和auIndex所占位数的和
 	const auHeaderSize = 2
@@ -205,6 +222,11 @@ func parseAu(b []byte) (ret []au) {
 
 		pauh += 2
 		pau += auSize
+	}
+
+	// 多个音频帧时，所有帧都必须完整的在当前包中
+	if nbAuHeaders > 1 && pau > uint32(len(b)) {
+		return nil
 	}
 
 	if (nbAuHeaders > 1 && pau != uint32(len(b))) ||
